@@ -1,5 +1,6 @@
 SPECIFICATION TSpec
 CONSTANTS
+  MaxRounds = 0
   N = @MAXN@
   K = 0
   MaxLen = 0
